@@ -2,13 +2,25 @@
 statement of the layout (field names) and of the excluded classes.
 
 type  ::= ('s', ann, scalar) | ('p', ann, l, r) | ('o', ann, l, r) | ('O', ann, t) | ('l', ann, t) | ('S', ann, t)
-        | ('m', ann, k, v) | ('b', ann, k, v)                       ann = (field | None, type | None)
+        | ('m', ann, k, v) | ('b', ann, k, v) | ('c', ann, param) | ('k', ann, t) (ticket) | ('f', ann, p, r) (lambda)
+                                                                    ann = (field | None, type | None)
+scalars: the eight simple ones, the base58 leaves (address key_hash key signature chain_id: value ('s', text)),
+bls12_381_fr (('I', n)), bls12_381_g1 / g2 (('x', bytes)), never (no value); a contract value is ('s', text),
+a ticket ('K', ticketer, item, amount), a lambda ('f', canonical JSON text of the body's Micheline)
 value ::= ('U',) | ('T',) | ('F',) | ('I', n) | ('s', str) | ('x', bytes) | ('P', a, b) | ('L', v) | ('R', v)
         | ('N',) | ('J', v) | ('l', [v]) | ('S', [v]) | ('m', [(k, v)]) | ('b', [(k, v)]) | ('B', id)"""
+import decimal
 import functools
+import json
 
-SCALARS = ['unit', 'bool', 'nat', 'int', 'mutez', 'timestamp', 'string', 'bytes']
-PRIM = {'s': None, 'p': 'pair', 'o': 'or', 'O': 'option', 'l': 'list', 'S': 'set', 'm': 'map', 'b': 'big_map'}
+SIMPLE = ['unit', 'bool', 'nat', 'int', 'mutez', 'timestamp', 'string', 'bytes']
+B58 = ['address', 'key_hash', 'key', 'signature', 'chain_id']
+BLS = ['bls12_381_fr', 'bls12_381_g1', 'bls12_381_g2']
+SCALARS = SIMPLE + B58 + BLS + ['never']
+COMPARABLE = SIMPLE + B58
+INT_LEAVES = ('nat', 'int', 'mutez', 'timestamp', 'bls12_381_fr')
+FR_MODULUS = 0x73EDA753299D7D483339D80809A1D80553BDA402FFFE5BFEFFFFFFFF00000001
+PRIM = {'s': None, 'p': 'pair', 'o': 'or', 'O': 'option', 'l': 'list', 'S': 'set', 'm': 'map', 'b': 'big_map', 'c': 'contract', 'k': 'ticket', 'f': 'lambda'}
 NOANN = (None, None)
 
 
@@ -44,11 +56,17 @@ def val_expr(t, v):
             return {'prim': 'Unit'}
         if sc == 'bool':
             return {'prim': 'True' if v[0] == 'T' else 'False'}
-        if sc in ('nat', 'int', 'mutez', 'timestamp'):
+        if sc in INT_LEAVES:
             return {'int': str(v[1])}
-        if sc == 'string':
+        if sc == 'string' or sc in B58:
             return {'string': v[1]}
         return {'bytes': v[1].hex()}
+    if k == 'c':
+        return {'string': v[1]}
+    if k == 'k':
+        return {'prim': 'Pair', 'args': [{'string': v[1]}, {'prim': 'Pair', 'args': [val_expr(t[2], v[2]), {'int': str(v[3])}]}]}
+    if k == 'f':
+        return json.loads(v[1])
     if k == 'p':
         return {'prim': 'Pair', 'args': [val_expr(t[2], v[1]), val_expr(t[3], v[2])]}
     if k == 'o':
@@ -62,8 +80,10 @@ def val_expr(t, v):
     return [{'prim': 'Elt', 'args': [val_expr(t[2], a), val_expr(t[3], b)]} for a, b in v[1]]
 
 
-def val_of_expr(t, e):
-    """legacy_optimized Micheline -> value tree (type-directed)"""
+def val_of_expr(t, e, inst=None):
+    """legacy_optimized Micheline -> value tree (type-directed).  The optimized form of a base58 leaf is its forged bytes
+    (and a signature loses its prefix there), so those leaves — and bls12_381_fr — are read from the instance itself,
+    which is walked in parallel when given (`.items` / `.item` / `.value`)"""
     k = t[0]
     if k == 's':
         sc = t[2]
@@ -71,25 +91,50 @@ def val_of_expr(t, e):
             return ('U',)
         if sc == 'bool':
             return ('T',) if e['prim'] == 'True' else ('F',)
-        if sc in ('nat', 'int', 'mutez', 'timestamp'):
+        if sc in B58:
+            return ('s', _text(inst.value))
+        if sc == 'bls12_381_fr':
+            return ('I', inst.value)
+        if sc in INT_LEAVES:
             return ('I', int(e['int']))
         if sc == 'string':
             return ('s', e['string'])
         return ('x', bytes.fromhex(e['bytes']))
+    if k == 'c':
+        return ('s', _text(inst.value))
+    if k == 'k':
+        return ('K', _text(inst.ticketer), val_of_expr(t[2], e['args'][1]['args'][0], inst.item), inst.amount)
+    if k == 'f':
+        return ('f', code_text(e))
+    sub = (lambda i: None) if inst is None else (lambda i: inst.items[i])
     if k == 'p':
         assert e['prim'] == 'Pair' and len(e['args']) == 2, e
-        return ('P', val_of_expr(t[2], e['args'][0]), val_of_expr(t[3], e['args'][1]))
+        return ('P', val_of_expr(t[2], e['args'][0], sub(0)), val_of_expr(t[3], e['args'][1], sub(1)))
     if k == 'o':
-        return ('L', val_of_expr(t[2], e['args'][0])) if e['prim'] == 'Left' else ('R', val_of_expr(t[3], e['args'][0]))
+        return ('L', val_of_expr(t[2], e['args'][0], sub(0))) if e['prim'] == 'Left' else ('R', val_of_expr(t[3], e['args'][0], sub(1)))
     if k == 'O':
-        return ('N',) if e['prim'] == 'None' else ('J', val_of_expr(t[2], e['args'][0]))
+        return ('N',) if e['prim'] == 'None' else ('J', val_of_expr(t[2], e['args'][0], None if inst is None else inst.item))
     if k == 'l':
-        return ('l', [val_of_expr(t[2], x) for x in e])
+        return ('l', [val_of_expr(t[2], x, sub(i)) for i, x in enumerate(e)])
     if k == 'S':
-        return ('S', [val_of_expr(t[2], x) for x in e])
+        return ('S', [val_of_expr(t[2], x, sub(i)) for i, x in enumerate(e)])
     if isinstance(e, dict):
         return ('B', int(e['int']))
-    return ('m' if k == 'm' else 'b', [(val_of_expr(t[2], x['args'][0]), val_of_expr(t[3], x['args'][1])) for x in e])
+    return ('m' if k == 'm' else 'b', [(val_of_expr(t[2], x['args'][0], None if inst is None else inst.items[i][0]),
+                                        val_of_expr(t[3], x['args'][1], None if inst is None else inst.items[i][1])) for i, x in enumerate(e)])
+
+
+def code_text(e):
+    """canonical JSON text of a Micheline expression"""
+    return json.dumps(e, sort_keys=True, separators=(',', ':'))
+
+
+def _text(x):
+    return x if isinstance(x, str) else '!not-a-str:' + repr(x)
+
+
+def has_instance_leaf(t):
+    return any((x[0] == 's' and (x[2] in B58 or x[2] == 'bls12_381_fr')) or x[0] in 'ck' for x in subterms(t))
 
 
 # ---------------------------------------------------------------------------------------------- tokens
@@ -125,6 +170,10 @@ def val_toks(v):
         return ['x' + _hx(v[1])]
     if k == 'P':
         return ['P'] + val_toks(v[1]) + val_toks(v[2])
+    if k == 'K':
+        return ['K' + _hx(v[1].encode())] + val_toks(v[2]) + [f'I{v[3]}']
+    if k == 'f':
+        return ['f' + _hx(v[1].encode())]
     if k in 'LRJ':
         return [k] + val_toks(v[1])
     if k in 'lS':
@@ -153,6 +202,13 @@ def py_toks(o):
         return ['s' + _hx(o.encode())]
     if isinstance(o, bytes):
         return ['x' + _hx(o)]
+    if isinstance(o, decimal.Decimal):
+        sign, digits, exp = o.as_tuple()
+        if exp in ('n', 'N'):
+            return ['Dnan']
+        if exp == 'F':
+            return ['Dinf']
+        return ['D%s%de%d' % ('-' if sign else '+', int(''.join(map(str, digits)) or '0'), exp)]
     if isinstance(o, (tuple, list)):
         out = [('t' if isinstance(o, tuple) else 'l') + str(len(o))]
         for x in o:
@@ -188,6 +244,11 @@ def val_str(v, top=True):
         return '0x' + v[1].hex()
     if k == 'N':
         return 'None'
+    if k == 'K':
+        r = f'Pair "{v[1]}" {val_str(v[2], False)} {v[3]}'
+        return r if top else f'({r})'
+    if k == 'f':
+        return 'lambda' + v[1]
     if k in 'lS':
         return '{' + '; '.join(val_str(x) for x in v[1]) + '}'
     if k in 'mb':
@@ -316,6 +377,10 @@ def excluded(t, cmp=False, unit_hashable=True, pair_lt_lex=True):
     field names are no reason: they have to be unique for every type"""
     out = []
     k = t[0]
+    if cmp and (k in 'ckf' or (k == 's' and t[2] in BLS)):
+        out.append(('not-comparable', t))       # `assert not comparable` in to_python_object
+    if k == 'k':
+        out += excluded(t[2], True, unit_hashable, pair_lt_lex)      # the contents are shown in the key rendering
     if k == 'p':
         for _, a in pair_leaves(t):
             out += excluded(a, cmp, unit_hashable, pair_lt_lex)
@@ -357,6 +422,12 @@ def cmp_val(t, a, b):
             return 0
         if sc == 'bool':
             x, y = a[0] == 'T', b[0] == 'T'
+        elif sc == 'address':
+            x, y = addr_key(a[1]), addr_key(b[1])
+        elif sc == 'key':
+            x, y = key_key(a[1]), key_key(b[1])
+        elif sc == 'signature':
+            x, y = pools()['raw'][a[1]], pools()['raw'][b[1]]
         else:
             x, y = a[1], b[1]
         return (x > y) - (x < y)
@@ -371,6 +442,71 @@ def cmp_val(t, a, b):
             return (a[0] != 'N') - (b[0] != 'N')
         return cmp_val(t[2], a[1], b[1])
     raise ValueError(t)
+
+
+def addr_key(s):
+    """the order of addresses as documented in AddressType.__lt__: implicit < originated < smart rollup, then the address
+    text, then the entrypoint (none = default)"""
+    a, _, e = s.partition('%')
+    return ({'KT1': 1, 'sr1': 2}.get(a[:3], 0), a, e or 'default')
+
+
+def key_key(s):
+    return (['edpk', 'sppk', 'p2pk', 'BLpk'].index(s[:4]), pools()['raw'][s])
+
+
+@functools.lru_cache(None)
+def pools():
+    """valid base58 texts by leaf kind, made with the library's own encoder from fixed payloads (all-zero, all-0xff, mixed),
+    and their decoded bytes"""
+    from pytezos.crypto.encoding import base58_encode
+    pay = lambda n: [bytes(n), b'\xff' * n, bytes((7 * i + 1) % 256 for i in range(n)), bytes((251 - 3 * i) % 256 for i in range(n))]
+    mk = lambda pre, n: [base58_encode(x, pre).decode() for x in pay(n)]
+    raw = {}
+    out = {'raw': raw}
+    out['key_hash'] = [x for pre in (b'tz1', b'tz2', b'tz3', b'tz4') for x in mk(pre, 20)[:3]]
+    plain = [x for pre in (b'tz1', b'tz2', b'tz3', b'tz4', b'KT1', b'sr1') for x in mk(pre, 20)[:3]]
+    kt = [x for x in plain if x.startswith('KT1')]
+    out['address'] = plain + [kt[0] + '%foo', kt[0] + '%a', kt[1] + '%' + 'e' * 31, kt[0] + '%Default', plain[-1] + '%x']
+    out['contract'] = out['address']
+    out['key'] = mk(b'edpk', 32) + mk(b'sppk', 33)[:3] + mk(b'p2pk', 33)[:3] + mk(b'BLpk', 48)[:2]
+    out['signature'] = mk(b'edsig', 64)[:2] + mk(b'spsig', 64)[2:3] + mk(b'p2sig', 64)[3:] + mk(b'sig', 64)[1:3] + mk(b'BLsig', 96)[:2]
+    out['chain_id'] = mk(b'Net', 4) + ['NetXdQprcVkpaWU']
+    import base58
+    for k in ('key', 'signature'):
+        for x in out[k]:
+            pre = next(p_ for p_ in ('edsig', 'spsig', 'p2sig', 'BLsig', 'sig', 'edpk', 'sppk', 'p2pk', 'BLpk') if x.startswith(p_))
+            n = {'edsig': 64, 'spsig': 64, 'p2sig': 64, 'sig': 64, 'BLsig': 96, 'edpk': 32, 'sppk': 33, 'p2pk': 33, 'BLpk': 48}[pre]
+            raw[x] = base58.b58decode_check(x)[-n:]
+    return out
+
+
+CODE_SOURCES = ['{}', '{ DUP }', '{ DUP ; ADD }', '{ PUSH nat 1 ; ADD }', '{ DROP ; PUSH string "a b" }', '{ DIP { DROP } ; SWAP }',
+                '{ IF_LEFT { DROP ; UNIT } { DROP ; UNIT } }', '{ PUSH (pair nat string) (Pair 1 "x") ; CAR }', '{ PUSH bytes 0x00ff ; DROP }',
+                '{ DUP @x ; CAR %a ; DROP }', '{ LAMBDA nat nat { DUP ; MUL } ; SWAP ; EXEC }', '{ PUSH int -5 ; NEG ; DROP 1 ; UNPAIR 3 }',
+                '{ ITER { DROP } ; NIL operation ; PAIR }', '{ PUSH (list nat) { 1 ; 2 ; 3 } ; DROP }', '{ { DUP } ; { } }',
+                '{ PUSH string "line\\nbreak \\"q\\"" ; DROP }', '{ CAST (or (nat %l) (string %r)) ; DIG 2 ; DUG 2 }']
+
+
+@functools.lru_cache(None)
+def code_pool():
+    """lambda bodies as the class holds them: parsed from source text and re-rendered by `Micheline.match(..).as_micheline_expr()`"""
+    from pytezos.michelson.micheline import Micheline
+    from pytezos.michelson.parse import michelson_to_micheline
+    return [code_text(Micheline.match(michelson_to_micheline(src)).as_micheline_expr()) for src in CODE_SOURCES]
+
+
+def inhabited(t):
+    k = t[0]
+    if k == 'k':
+        return inhabited(t[2])
+    if k == 's':
+        return t[2] != 'never'
+    if k == 'p':
+        return inhabited(t[2]) and inhabited(t[3])
+    if k == 'o':
+        return inhabited(t[2]) or inhabited(t[3])
+    return True
 
 
 def sort_unique(t, xs, key=lambda x: x):
@@ -396,7 +532,7 @@ def rand_ann(rng, p_field, p_type, allow_field=True):
 def rand_comparable(rng, depth, p_field=0.3):
     k = rng.randrange(10) if depth > 0 else 0
     if k <= 4:
-        return ('s', NOANN, rng.choice(SCALARS))
+        return ('s', NOANN, rng.choice(COMPARABLE if rng.random() < 0.7 else B58))
     if k <= 6:
         return ('p', NOANN, with_ann(rand_comparable(rng, depth - 1), rand_ann(rng, p_field, 0.1)),
                 with_ann(rand_comparable(rng, depth - 1), rand_ann(rng, p_field, 0.1)))
@@ -410,7 +546,16 @@ def rand_type(rng, depth, p_field=0.5, p_type=0.15, storage=True):
     """a type without annotation on its own node (the parent decides)"""
     k = rng.randrange(16) if depth > 0 else rng.randrange(4)
     if k < 4:
-        return ('s', NOANN, rng.choice(SCALARS))
+        r = rng.random()
+        if r < 0.04:
+            return ('f', NOANN, ('s', NOANN, rng.choice(['nat', 'unit', 'string'])), ('s', NOANN, rng.choice(['nat', 'unit'])))
+        if r < 0.1 and depth > 0:
+            return ('k', NOANN, with_ann(rand_comparable(rng, depth - 1), rand_ann(rng, 0.15, 0.1)))
+        if r < 0.13:
+            return ('k', NOANN, ('s', NOANN, rng.choice(COMPARABLE)))
+        if r < 0.2:
+            return ('c', NOANN, rng.choice([('s', NOANN, 'unit'), ('s', NOANN, 'nat'), ('p', NOANN, ('s', ('to', None), 'address'), ('s', NOANN, 'nat'))]))
+        return ('s', NOANN, rng.choice(SIMPLE if r < 0.5 else SCALARS))
     if k < 8:
         pf = rng.choice([0.0, p_field, p_field, 1.0])
         l = with_ann(rand_type(rng, depth - 1, p_field, p_type, storage), rand_ann(rng, pf, p_type))
@@ -520,14 +665,35 @@ def rand_value(rng, t, size=3):
             return ('I', rng.choice([0, -1, 1700000000, rng.randrange(2 * 10 ** 9)]))
         if sc == 'string':
             return ('s', rng.choice(['', 'a', 'abc', 'Unit', 'None', '0', 'tz1', 'hello world', 'a_1', 'a\nb', ' ~']))
-        return ('x', rng.choice([b'', b'\x00', b'\x01\x02', b'\xff' * 3, b'ab']))
+        if sc in B58:
+            return ('s', rng.choice(pools()[sc]))
+        if sc == 'bls12_381_fr':
+            return ('I', rng.choice([0, 1, FR_MODULUS - 1, 2 ** 255 % FR_MODULUS, rng.randrange(FR_MODULUS), rng.randrange(1000)]))
+        if sc == 'bls12_381_g1':
+            return ('x', rng.choice([bytes(96), b'\x17' * 96, bytes(range(96)), b'', b'\x01']))      # no length check on this path
+        if sc == 'bls12_381_g2':
+            return ('x', rng.choice([bytes(192), bytes(i % 251 for i in range(192)), b'\xff']))
+        if sc == 'never':
+            raise ValueError('never has no value')
+        return ('x', rng.choice([b'', b'\x00', b'\x01\x02', b'\xff' * 3, b'ab', b'\x05\x00\x2a', b'\x05\x01\x00\x00\x00\x01a']))
+    if k == 'c':
+        return ('s', rng.choice(pools()['contract']))
+    if k == 'k':
+        return ('K', rng.choice(pools()['address']), rand_value(rng, t[2], size), rng.choice([0, 1, 2 ** 64, rng.randrange(1000)]))
+    if k == 'f':
+        return ('f', rng.choice(code_pool()))
     if k == 'p':
         return ('P', rand_value(rng, t[2], size), rand_value(rng, t[3], size))
     if k == 'o':
-        return ('L', rand_value(rng, t[2], size)) if rng.random() < 0.5 else ('R', rand_value(rng, t[3], size))
+        side = rng.random() < 0.5
+        if not inhabited(t[2]) or not inhabited(t[3]):
+            side = inhabited(t[2])
+        return ('L', rand_value(rng, t[2], size)) if side else ('R', rand_value(rng, t[3], size))
     if k == 'O':
-        return ('N',) if rng.random() < 0.4 else ('J', rand_value(rng, t[2], size))
+        return ('N',) if rng.random() < 0.4 or not inhabited(t[2]) else ('J', rand_value(rng, t[2], size))
     n = rng.choice([0, 1, 2, size])
+    if not all(inhabited(a) for a in t[2:]):
+        n = 0
     if k == 'l':
         return ('l', [rand_value(rng, t[2], size - 1) for _ in range(n)])
     if k == 'S':
